@@ -284,6 +284,9 @@ def pushLoop (c : Codec) (fill : Byte) : Nat → EncState → List Byte → Nat 
         | none => .ok (o.st, buf', used', (max + o.ret : Nat), cons)
         | some bytes =>
           if bytes.length = o.ret then .ok (o.st, buf', used', (max + o.ret : Nat), cons ++ [o.ret])
+          else if o.ret = 0 then
+            -- the encoder could not take any of the data: require larger buffer
+            pushLoop c fill fuel o.st (detach buf' used' (buf'.length + 64) fill) used' data max cons
           else pushLoop c fill fuel o.st buf' used' (some (bytes.drop o.ret)) (max + o.ret) (cons ++ [o.ret])
       | .err .MissingBuffer =>
         -- require larger buffer
@@ -292,17 +295,19 @@ def pushLoop (c : Codec) (fill : Byte) : Nat → EncState → List Byte → Nat 
       | .oob => .oob
       | .unmodelled => .unmodelled
 
+/-- "current buffer data": the buffer (allocated or enlarged to hold `add` more bytes) the retry loop starts with -/
+def arrayStart (fill : Byte) (a : EncArray) (add : Nat) : CRes (List Byte × Nat) :=
+  match a.buf with
+  | none => if a.st.done + a.st.scratch ≠ 0 then .err .BadArgument else .ok (List.replicate (allocSize add) fill, 0)
+  | some b => .ok (detach b a.used (a.st.done + a.st.scratch + add) fill, a.used)
+
 /-- `mpt_array_push(arr, len, data)` with an encoder set; `data = none` is `len = 0` (terminate).
     Returns the array afterwards, the C return value and the per-call consumption. -/
 def arrayPush (c : Codec) (fill : Byte) (a : EncArray) (data : Option (List Byte)) : CRes (EncArray × Int × List Nat) :=
   let len := (data.map List.length).getD 0
   let max := a.st.done + a.st.scratch
   let add := if len > 64 then len else 64
-  let start : CRes (List Byte × Nat) :=
-    match a.buf with
-    | none => if max ≠ 0 then .err .BadArgument else .ok (List.replicate (allocSize add) fill, 0)
-    | some b => .ok (detach b a.used (max + add) fill, a.used)
-  match start with
+  match arrayStart fill a add with
   | .ok (buf, used) =>
     match pushLoop c fill (2 * len + 8) a.st buf used (if len = 0 then none else data) 0 [] with
     | .ok (st, buf, used, ret, cons) => .ok ({ st := st, buf := some buf, used := used }, ret, cons)
@@ -312,5 +317,20 @@ def arrayPush (c : Codec) (fill : Byte) (a : EncArray) (data : Option (List Byte
   | .err e => .err e
   | .oob => .oob
   | .unmodelled => .unmodelled
+
+/-- a message handed to `mpt_array_push` piece by piece, then terminated -/
+def arrayMessage (c : Codec) (fill : Byte) : EncArray → List (List Byte) → CRes EncArray
+  | a, [] =>
+    match arrayPush c fill a none with
+    | .ok (a', _, _) => .ok a'
+    | .err e => .err e
+    | .oob => .oob
+    | .unmodelled => .unmodelled
+  | a, ch :: rest =>
+    match arrayPush c fill a (some ch) with
+    | .ok (a', ret, _) => if ret = (ch.length : Int) then arrayMessage c fill a' rest else .err .MissingBuffer
+    | .err e => .err e
+    | .oob => .oob
+    | .unmodelled => .unmodelled
 
 end Mpt.Codec
